@@ -543,7 +543,7 @@ func (c *Ctx) c11WhoDeletes() {
 			if id, ok := call.Fun.(*ast.Ident); ok && id.Name == "delete" && len(call.Args) == 2 {
 				if _, isB := info.Uses[id].(*types.Builtin); isB {
 					if sel, ok := ast.Unparen(call.Args[0]).(*ast.SelectorExpr); ok {
-						if s := info.Selections[sel]; s != nil && s.Obj().Name() == "data" && strings.HasPrefix(namedTypeName(s.Recv()), "hashedBucket") {
+						if s := info.Selections[sel]; s != nil && selFieldName(s) == "data" && strings.HasPrefix(namedTypeName(s.Recv()), "hashedBucket") {
 							isDel = true
 						}
 					}
